@@ -98,6 +98,7 @@ package lang
 //@   ensures[C13] unclosed-iff: (err != nil) <==> (forall k int :: old(l.pos) <= k && k < len(l.src) ==> l.src[k] != quoteChar)
 //@   ensures[C13] unclosed-token: err != nil ==> result0.Tag == Error && result0.Pos == old(l.tokenStart) && l.tokenStart == old(l.tokenStart)
 //@   ensures[C01] errkind: err != nil ==> isSyn(err)
+//@   ensures consumed: l.tokenStart < l.pos
 //@   ensures lexok: lexOK(l) && l.src == old(l.src)
 //@   modifies l.pos, l.tokenStart
 //@   loop 0 invariant a: old(l.pos) <= l.pos && l.pos <= len(l.src) && l.src == old(l.src) && l.tokenStart == old(l.tokenStart)
@@ -105,11 +106,12 @@ package lang
 
 // Lexer.Regex is called by the parser after the opening '/' token has been lexed.
 //@ func Lexer.Regex [C13]
-//@   requires tokOK(l)
+//@   requires tokOK(l) && l.tokenStart < l.pos
 //@   ensures[C13] closed: err == nil ==> result0.Tag == Regex && result0.Pos == old(l.tokenStart) + 1 && result0.Len == l.pos - old(l.tokenStart) - 2 && l.pos <= len(l.src) && old(l.pos) < l.pos && l.src[l.pos-1] == '/' && (forall k int :: old(l.pos) <= k && k < l.pos - 1 ==> l.src[k] != '/')
 //@   ensures[C13] unclosed-iff: (err != nil) <==> (forall k int :: old(l.pos) <= k && k < len(l.src) ==> l.src[k] != '/')
 //@   ensures[C13] unclosed-token: err != nil ==> result0.Tag == Error && result0.Pos == old(l.tokenStart)
 //@   ensures[C01] errkind: err != nil ==> isSyn(err)
+//@   ensures consumed: l.tokenStart < l.pos
 //@   ensures lexok: lexOK(l) && l.src == old(l.src)
 //@   modifies l.pos, l.tokenStart
 //@   loop 0 invariant a: old(l.pos) <= l.pos && l.pos <= len(l.src) && l.src == old(l.src) && l.tokenStart == old(l.tokenStart)
@@ -134,6 +136,7 @@ package lang
 //@ func Lexer.Next [C13,C12]
 //@   requires lexOK(l)
 //@   ensures lexok: lexOK(l) && l.src == old(l.src)
+//@   ensures consumed: (err != nil || result0.Tag != EOF) ==> l.tokenStart < l.pos
 //@   ensures[C01] errkind: err != nil ==> isSyn(err)
 //@   ensures[C13] eof: err == nil && result0.Tag == EOF ==> skipped(l.src, old(l.pos), len(l.src)) && l.pos == len(l.src)
 //@   ensures[C13] token-start: result0.Tag != EOF ==> skipped(l.src, old(l.pos), tokStart(result0)) && tokStart(result0) < len(l.src) && !isBlank(l.src[tokStart(result0)]) && l.src[tokStart(result0)] != '#'
@@ -620,14 +623,22 @@ package lang
 // ---------------------------------------------------------------- drivers (C01, C02, C03, C11)
 
 //@ func NewLexer
-//@   ensures lexok: result.pos == 0 && result.src == src
+//@   ensures lexok: result.pos == 0 && result.tokenStart == 0 && result.src == src
 //@ func Evaluator.readRules [C01,C02]
 //@   requires e != nil
 //@   modifies e.beginRules, e.beginFileRules, e.endRules, e.endFileRules, e.patternRules
 //@   loop 0 invariant own-lists: fresh(e.beginRules) && fresh(e.beginFileRules) && fresh(e.endRules) && fresh(e.endFileRules) && fresh(e.patternRules)
 
+//@ func Evaluator.addProgramFunctions [C01,C08]
+//@   requires e != nil && e.lexer != nil && e.stackTop != nil
+//@   updates nothing
+//@   modifies mapof(e.stackTop.locals)
+//@   loop 0 invariant frame-kept: e.stackTop == old(e.stackTop) && e.lexer == old(e.lexer) && e.stackTop.locals == old(e.stackTop.locals)
+
 //@ func NewEvaluator [C01,C02]
 //@   requires lexer != nil && !$faulted
+//@   updates nothing
+//@   modifies nothing
 //@   ensures[C01] ready: result.lexer == lexer && frameOK(result.stackTop) && result.stackTop.parent == nil && result.ruleRoot == nil && result.root == nil
 //@   ensures[C11] no-fault: !$faulted
 
@@ -701,7 +712,7 @@ package lang
 //@ spec func prefixOK(r parseRule, t TokenTag) bool = r.prefix == (isLiteralTag(t) ? fn("literal") : ((t == Dollar || t == Ident) ? fn("identifier") : (t == LSquare ? fn("array") : (t == LParen ? fn("group") : ((t == Plus || t == Minus || t == Bang || t == PlusPlus || t == MinusMinus) ? fn("unary") : (t == Divide ? fn("regex") : (t == Match ? fn("match") : (t == LCurly ? fn("object") : nil))))))))
 //@ spec func infixOK(r parseRule, t TokenTag) bool = r.infix == (t == LSquare ? fn("computedMember") : (t == Dot ? fn("member") : (t == LParen ? fn("call") : (t == Equal ? fn("assign") : (t == Is ? fn("is") : ((t == PlusPlus || t == MinusMinus) ? fn("postfix") : ((isCompareTag(t) || t == Plus || t == Minus || t == Multiply || t == Divide || t == Percent || isCompoundTag(t) || t == AmpAmp || t == PipePipe) ? fn("binary") : nil)))))))
 //@ spec func tableOK(m map[TokenTag]parseRule) bool = forall t TokenTag :: (inTable(t) ==> has(m, t) && m[t].prec == specPrec(t) && prefixOK(m[t], t) && infixOK(m[t], t)) && (!inTable(t) ==> !has(m, t))
-//@ spec func parserOK(p *Parser) bool = p != nil && p.lexer != nil && lexOK(p.lexer) && p.current != nil && p.rules != nil && tableOK(p.rules)
+//@ spec func parserOK(p *Parser) bool = p != nil && p.lexer != nil && lexOK(p.lexer) && p.current != nil && p.rules != nil && tableOK(p.rules) && (p.current.Tag != EOF ==> p.lexer.tokenStart < p.lexer.pos)
 //@ modset parserState = p.current, p.previous, p.didEndStatement, p.inLoop, p.inFunction, p.lexer.pos, p.lexer.tokenStart
 
 // Every parsing function: syntax errors only, a node on success, the loop/function context flags
@@ -736,7 +747,8 @@ package lang
 //@   updates nothing
 //@   modifies parserState
 //@   ensures[C01] errkind: err == nil || isSyn(err)
-//@   ensures[C13] newline-skipped: err == nil ==> p.current != nil && p.current.Tag != Newline
+//@   ensures[C13] newline-skipped: err == nil ==> p.current != nil && p.current.Tag != Newline && (p.current.Tag != EOF ==> p.lexer.tokenStart < p.lexer.pos)
+//@   ensures strict: err != nil ==> p.lexer.tokenStart < p.lexer.pos
 //@   ensures previous: err == nil ==> p.previous == old(p.current)
 //@   ensures ok: p.lexer == old(p.lexer) && lexOK(p.lexer) && p.rules == old(p.rules) && (old(p.current) != nil ==> p.current != nil) && p.inLoop == old(p.inLoop) && p.inFunction == old(p.inFunction) && (old(p.previous) != nil && old(p.current) != nil ==> p.previous != nil)
 
